@@ -109,6 +109,9 @@ def cases(tier, seed):
            # complex Hermitian h_0 whose explicit levels are real basis vectors, real right-hand side
            dict(n=6, blocks=[1], opts={}, layout="localized-complex"),
            dict(n=6, blocks=[1, 1], opts={"atol": 1e-6}, layout="localized-complex")]
+    for sc in (1e-3, 1e-4, 1e3):
+        kpm += [dict(n=6, blocks=[1], opts={}, scale=sc), dict(n=6, blocks=[1, 1], opts={}, scale=sc),
+                dict(n=6, blocks=[2], opts={"atol": 1e-6}, scale=sc)]
     kpm += [dict(n=24, blocks=[2], opts={"atol": 1e-5}, layout="spin-sigma-y"),
             dict(n=24, blocks=[2, 2], opts={"atol": 1e-5}, layout="spin-sigma-y"),
             dict(n=6, blocks=[2], opts={"atol": 1e-5}, layout="descending"),
@@ -504,6 +507,10 @@ def run_kpm(case):
         order = list(range(nexp))[::-1] + [n - 1, nexp, n - 2] + [i for i in range(nexp + 1, n - 2)]
         order = order[:n] if len(set(order)) == n else list(range(nexp))[::-1] + list(range(nexp, n))[::-1]
         Rm, E = Rm[:, order], E[order]
+    if case.get("scale"):
+        # the same problem in other energy units (meV -> eV): the accuracy request refers to the solution, whose
+        # equation E V - V H_0 = Y P keeps the magnitude of Y
+        h0, E = h0 * case["scale"], E * case["scale"]
     off = [0] + list(np.cumsum(blocks))
     eigvecs = tuple(Rm[:, off[b] : off[b + 1]] for b in range(len(blocks)))
     if isinstance(opts.get("auxiliary_vectors"), int):
@@ -521,11 +528,22 @@ def run_kpm(case):
             Y = rng.normal(size=(blocks[b], n))
             if special_Y is not None:
                 Y = eigvecs[b].conj().T @ special_Y
+            sc_ = case.get("scale") or 1.0
+            Y1 = Y
+            Y = Y * sc_  # H -> c H rescales the right-hand sides (products of H' with U) as well
             X = solve(Y.copy(), (b, nb))
             res = np.diag(Eb) @ X - X @ h0 - Y @ P
             want = opts.get("atol", 1e-5)
             converged = not any(issubclass(w.category, RuntimeWarning) and "converge" in str(w.message) for w in wl)
-            if converged and np.abs(res).max() > 50 * want * max(1.0, np.abs(Y).max()) * n:
+            if case.get("scale"):
+                # covariance under a change of energy units H -> c H: V solves c(E V - V H_0) = c Y P, i.e. it is unchanged
+                solve1 = solve_sylvester_KPM(sparse.csr_array(h0 / sc_), eigvecs, solver_options=opts)
+                X1 = solve1(Y1.copy(), (b, nb))
+                converged = not any(issubclass(w.category, RuntimeWarning) and "converge" in str(w.message) for w in wl)
+                dev = np.abs(X - X1).max()
+                if converged and dev > 100 * want * max(1.0, np.abs(X1).max()):
+                    V.append(f"KPM ({b}, implicit): the solution changes under H -> {sc_} H (by {dev:.2e})")
+            if converged and np.abs(res).max() > 50 * want * max(1.0, np.abs(Y).max()) * n * max(1.0, sc_):
                 V.append(f"KPM ({b}, implicit): residual {np.abs(res).max():.2e} exceeds 50 x requested accuracy {want} without a convergence warning")
             for b2 in range(nb):
                 Ye = rng.normal(size=(blocks[b], blocks[b2]))
@@ -533,6 +551,6 @@ def run_kpm(case):
                     continue
                 Xe = solve(Ye.copy(), (b, b2))
                 dE = Eb.reshape(-1, 1) - E[off[b2] : off[b2 + 1]].reshape(1, -1)
-                if np.abs(dE * Xe - Ye).max() > 1e-9:
+                if np.abs(dE * Xe - Ye).max() > 1e-9 * max(1.0, np.abs(Ye).max()):
                     V.append(f"KPM explicit part ({b},{b2}): E_i V - V E_j != Y")
     return V, True, "solved"
